@@ -9,10 +9,14 @@ from . import core, tlc, master_l2
 SPEC_DIR = os.path.join(core.SPECS, 'master')
 
 
-def _alloc(name, part, pats, rank=100, mem='0M', cpu='0%', disk='0M', traits=()):
-    return dict(name=name, partition=part, rank=rank, rank_adjustment=0, memory=mem, cpu=cpu,
-                disk=disk, traits=list(traits),
-                assignments=[dict(pattern=p, priority=pr) for p, pr in pats])
+def _alloc(name, part, pats, rank=100, mem='0M', cpu='0%', disk='0M', traits=(), maxutil=None,
+           adj=0):
+    d = dict(name=name, partition=part, rank=rank, rank_adjustment=adj, memory=mem, cpu=cpu,
+             disk=disk, traits=list(traits),
+             assignments=[dict(pattern=p, priority=pr) for p, pr in pats])
+    if maxutil is not None:
+        d['max_utilization'] = maxutil
+    return d
 
 
 def _man(name, mem=1, cpu=1, disk=1, **kw):
@@ -36,7 +40,13 @@ SCENARIOS = {
                     _alloc('proid/z', 'pB', [('proid.db*', 5)], traits=['t1'])],
                    [_alloc('proid/x', '_default', [('proid.web*', 7)], rank=90, mem='1G', cpu='1%',
                            disk='1024M'),
-                    _alloc('proid/z', '_default', [('proid.db*', 5)])]],
+                    _alloc('proid/z', '_default', [('proid.db*', 5)])],
+                   # a utilisation cap (one instance's worth) and a rank adjustment: set by
+                   # this document, gone again with any of the others
+                   [_alloc('proid/x', '_default', [('proid.web*', 1)], mem='1G', cpu='100%',
+                           disk='1G', maxutil=1, adj=10),
+                    _alloc('proid/z', 'pB', [('proid.db*', 5)], mem='2G', cpu='200%', disk='2G',
+                           maxutil=2)]],
         aprofiles=[_man('proid.web', identity_group='proid.g1', data_retention_timeout='2s'),
                    _man('proid.db', 2, 2, 2, lease='3s'),
                    _man('other.app', data_retention_timeout='0s'),
